@@ -270,6 +270,84 @@ def check_clip_closure(cx, clo, thresh_idx, outer):
     return None
 
 
+def check_constructors(run, cx, cfg):
+    """adaptor constructors store their arguments unmodified: every single-path function of dasp_signal that returns a
+    dasp_signal struct literal must fill each field with a parameter as given (or a constant / marker / the result of a
+    nested constructor call on parameters), use every parameter, and put a parameter into the field of the same name
+    when such a field exists (delay(k) must store k, not k + 1; windower(bin, hop) must not swap them)"""
+    n = 0
+    for b in sorted(cx.facts.bodies_in('dasp_signal'), key=lambda b: b['path']):
+        if b['kind'] == 'Closure' or not b.get('pub'):
+            continue
+        imp = b.get('impl') or {}
+        if imp.get('trait') in ('core::clone::Clone', 'core::fmt::Debug', 'core::default::Default'):
+            continue
+        if b['path'].startswith('dasp_signal::bus::'):
+            continue           # send() is checked by C13
+        try:
+            ps = returning(cx.paths(b['path'], inline=False))
+        except T.TooComplex:
+            continue
+        if len(ps) != 1 or ps[0]['ret'] is None:
+            continue
+        r = ps[0]['ret']
+        if not (r[0] == 'agg' and r[1][0] == 'adt' and r[1][1].startswith('dasp_signal::')):
+            continue
+        adt = r[1][1]
+        fnames = cx.field_names(adt)
+        pnames = {i: b['names'].get(str(i)) for i in range(1, b['argc'] + 1)}
+        n += 1
+        bad = None
+        used = set()
+
+        def value_ok(v, depth=0):
+            v0 = strip_epoch(v)
+            if v0[0] == 'param':
+                used.add(v0[1])
+                return True
+            if v0[0] == 'ref' and v0[1][0][0] == 'P' and not v0[1][1] and v0[1][0][1][0] == 'param':
+                used.add(v0[1][0][1][1])
+                return True
+            if v0[0] in ('float', 'int', 'bool', 'unit'):
+                return True
+            if v0[0] == 'agg' and not v0[2]:
+                return True                      # PhantomData, None
+            if v0[0] == 'agg' and depth < 2:
+                return all(value_ok(x, depth + 1) for x in v0[2])
+            if v0[0] in ('ret', 'mut'):
+                e = ps[0]['events'][v0[1]]
+                return all(value_ok(a, depth + 1) or a[0] == 'ref' for a in e['args'])
+            if v0[0] == 'app':
+                return False
+            return False
+        for i, v in enumerate(r[2]):
+            if not value_ok(v):
+                bad = 'field `%s` is filled with %s instead of an argument as given' % (fnames[i] if i < len(fnames) else i, short(v))
+                break
+            v0 = strip_epoch(v)
+            if v0[0] == 'param' and i < len(fnames):
+                pn = pnames.get(v0[1])
+                # a field whose name equals some parameter's name must receive that parameter
+                same = [j for j, nm in pnames.items() if nm == fnames[i]]
+                if same and v0[1] not in same:
+                    bad = 'field `%s` receives parameter `%s`, not the parameter of the same name' % (fnames[i], pn)
+                    break
+        if not bad:
+            unused = [pnames.get(i) or i for i in range(1, b['argc'] + 1) if i not in used]
+            if unused:
+                bad = 'parameter(s) %s are dropped by the constructor' % unused
+        # the few constructors that compute a field are owned by other properties (Rate::const_hz, C17; Window::new, C20)
+        OWNED = {'dasp_signal::Rate::const_hz': 'C17 (step = hz / rate)', 'dasp_signal::from_iter': 'C05 (look-ahead priming)',
+                 'dasp_signal::from_interleaved_samples_iter': 'C05 (look-ahead priming)', 'dasp_signal::window::Window::<F, W>::new': 'C20 (phase step 1/(n-1))',
+                 'dasp_signal::Signal::fork': 'C12 (shared state)'}
+        if b['path'] in OWNED:
+            run.ok('ctor.passthrough', b['path'], cfg + ':computed-fields-owned-by-' + OWNED[b['path']].split()[0], nontrivial=False)
+            continue
+        run.check(bad is None, 'ctor.passthrough', b['path'], cfg, bad or '', where=where(b),
+                  sample=short(r)[:120] if b['path'].endswith(('::delay', '::zip_map', 'Windower::<\'a, F, W>::new')) else None)
+    run.floor('ctor.passthrough', 'constructor-like functions (%s)' % cfg, n, 30 if cfg != 'nostd' else 25)
+
+
 def run(run, tier, load):
     run.rule_text = ('one instance per (impl Signal x rule x configuration); non-trivial = the impl has at least one Signal source or a '
                      'specified return term')
@@ -304,3 +382,4 @@ def run(run, tier, load):
             except T.TooComplex as e:
                 run.unproven('pull.once-per-source', it['path'], cfg, 'path enumeration gave up: %s' % e, where=where(body))
         run.floor('pull.once-per-source', 'impl Signal (%s)' % cfg, n, 35 if cfg != 'nostd' else 30)
+        check_constructors(run, cx, cfg)
